@@ -16,51 +16,71 @@ import (
 
 var redisCounterCmds = map[string]bool{"INCR": true, "DECR": true, "INCRBY": true, "DECRBY": true}
 
-// redisEvents lists, in source order, the Redis commands a body issues: "S:<CMD>" for Send, "D:<CMD>" for Do;
-// functions and methods of the package are followed, and a command name handed to such a helper as a string literal
-// is followed through its parameter.
-func redisEvents(body *ast.BlockStmt, local map[string]*ast.FuncDecl, depth int) []string {
-	return redisEventsEnv(body, local, depth, nil)
+// redisEvents lists, in source order, the Redis commands a body issues: "S:<CMD>" for Send, "D:<CMD>" for Do.
+// Functions and methods of the package are followed (their bodies take the place of the call), a command name handed
+// to such a helper as a string literal is followed through its parameter, and the body of an `if` that ends in
+// break/continue/return is enclosed in "(" … ")": what happens on such a path does not reach the code after the `if`.
+type redisEv struct{ local map[string]*ast.FuncDecl }
+
+func terminatesBlock(b *ast.BlockStmt) bool {
+	if b == nil || len(b.List) == 0 {
+		return false
+	}
+	switch x := b.List[len(b.List)-1].(type) {
+	case *ast.ReturnStmt:
+		return true
+	case *ast.BranchStmt:
+		return x.Tok == token.BREAK || x.Tok == token.CONTINUE
+	}
+	return false
 }
 
-func redisEventsEnv(body *ast.BlockStmt, local map[string]*ast.FuncDecl, depth int, env map[string]string) []string {
-	var out []string
-	lit := func(e ast.Expr) (string, bool) {
-		switch x := e.(type) {
-		case *ast.BasicLit:
-			if x.Kind == token.STRING {
-				v, _ := strconv.Unquote(x.Value)
-				return v, true
-			}
-		case *ast.Ident:
-			v, ok := env[x.Name]
-			return v, ok
+func (x *redisEv) lit(e ast.Expr, env map[string]string) (string, bool) {
+	switch v := e.(type) {
+	case *ast.BasicLit:
+		if v.Kind == token.STRING {
+			s, _ := strconv.Unquote(v.Value)
+			return s, true
 		}
-		return "", false
+	case *ast.Ident:
+		s, ok := env[v.Name]
+		return s, ok
 	}
-	ast.Inspect(body, func(n ast.Node) bool {
-		c, ok := n.(*ast.CallExpr)
+	return "", false
+}
+
+// node: the commands an expression or simple statement issues
+func (x *redisEv) node(n ast.Node, env map[string]string, depth int) []string {
+	var out []string
+	if n == nil {
+		return out
+	}
+	ast.Inspect(n, func(m ast.Node) bool {
+		c, ok := m.(*ast.CallExpr)
 		if !ok {
 			return true
 		}
-		// arguments first (redis.Int64s(conn.Do("EXEC")) is found by the traversal itself)
 		if sel, ok := c.Fun.(*ast.SelectorExpr); ok && (sel.Sel.Name == "Send" || sel.Sel.Name == "Do") && len(c.Args) > 0 {
-			if cmd, ok := lit(c.Args[0]); ok {
+			if cmd, ok := x.lit(c.Args[0], env); ok {
 				out = append(out, sel.Sel.Name[:1]+":"+strings.ToUpper(cmd))
-				return true
+			} else {
+				out = append(out, sel.Sel.Name[:1]+":?")
 			}
-			out = append(out, sel.Sel.Name[:1]+":?")
 			return true
 		}
 		name := chainName(c)
-		if fd, ok := local[name]; ok && depth < 3 && !strings.Contains(name, ".") {
+		if fd, ok := x.local[name]; ok && depth < 4 && !strings.Contains(name, ".") {
+			// the arguments are evaluated first
+			for _, a := range c.Args {
+				out = append(out, x.node(a, env, depth)...)
+			}
 			sub := map[string]string{}
 			i := 0
 			if fd.Type.Params != nil {
 				for _, fl := range fd.Type.Params.List {
 					for _, pn := range fl.Names {
 						if i < len(c.Args) {
-							if v, ok := lit(c.Args[i]); ok {
+							if v, ok := x.lit(c.Args[i], env); ok {
 								sub[pn.Name] = v
 							}
 						}
@@ -68,11 +88,77 @@ func redisEventsEnv(body *ast.BlockStmt, local map[string]*ast.FuncDecl, depth i
 					}
 				}
 			}
-			out = append(out, redisEventsEnv(fd.Body, local, depth+1, sub)...)
+			out = append(out, x.stmts(fd.Body.List, sub, depth+1)...)
+			return false
 		}
 		return true
 	})
 	return out
+}
+
+func (x *redisEv) block(b *ast.BlockStmt, env map[string]string, depth int) []string {
+	if b == nil {
+		return nil
+	}
+	body := x.stmts(b.List, env, depth)
+	if terminatesBlock(b) {
+		return append(append([]string{"("}, body...), ")")
+	}
+	return body
+}
+
+func (x *redisEv) stmts(list []ast.Stmt, env map[string]string, depth int) []string {
+	var out []string
+	for _, st := range list {
+		switch s := st.(type) {
+		case *ast.IfStmt:
+			out = append(out, x.node(s.Init, env, depth)...)
+			out = append(out, x.node(s.Cond, env, depth)...)
+			out = append(out, x.block(s.Body, env, depth)...)
+			switch e := s.Else.(type) {
+			case *ast.BlockStmt:
+				out = append(out, x.block(e, env, depth)...)
+			case *ast.IfStmt:
+				out = append(out, x.stmts([]ast.Stmt{e}, env, depth)...)
+			}
+		case *ast.ForStmt:
+			out = append(out, x.node(s.Init, env, depth)...)
+			out = append(out, x.node(s.Cond, env, depth)...)
+			out = append(out, x.stmts(s.Body.List, env, depth)...)
+		case *ast.RangeStmt:
+			out = append(out, x.node(s.X, env, depth)...)
+			out = append(out, x.stmts(s.Body.List, env, depth)...)
+		case *ast.BlockStmt:
+			out = append(out, x.stmts(s.List, env, depth)...)
+		case *ast.SwitchStmt:
+			out = append(out, x.node(s.Init, env, depth)...)
+			out = append(out, x.node(s.Tag, env, depth)...)
+			for _, cc := range s.Body.List {
+				if cl, ok := cc.(*ast.CaseClause); ok {
+					out = append(out, x.block(&ast.BlockStmt{List: cl.Body}, env, depth)...)
+				}
+			}
+		default:
+			out = append(out, x.node(st, env, depth)...)
+		}
+	}
+	return out
+}
+
+func redisEvents(body *ast.BlockStmt, local map[string]*ast.FuncDecl, depth int) []string {
+	x := &redisEv{local: local}
+	var flat []string
+	for _, e := range x.stmts(body.List, nil, depth) {
+		if e != "(" && e != ")" {
+			flat = append(flat, e)
+		}
+	}
+	return flat
+}
+
+func redisEventsStructured(list []ast.Stmt, local map[string]*ast.FuncDecl) []string {
+	x := &redisEv{local: local}
+	return x.stmts(list, nil, 0)
 }
 
 func redisShape(ev []string) string {
@@ -106,80 +192,6 @@ func redisShape(ev []string) string {
 		}
 	}
 	return "one atomic membership group, then counter round trips only"
-}
-
-// redisEventsStructured is redisEvents with the bodies of `if` statements that end in break/continue/return enclosed
-// in "(" … ")": what happens on such a path does not reach the code after the `if`.
-func redisEventsStructured(list []ast.Stmt, local map[string]*ast.FuncDecl) []string {
-	var out []string
-	terminates := func(b *ast.BlockStmt) bool {
-		if b == nil || len(b.List) == 0 {
-			return false
-		}
-		switch x := b.List[len(b.List)-1].(type) {
-		case *ast.ReturnStmt:
-			return true
-		case *ast.BranchStmt:
-			return x.Tok == token.BREAK || x.Tok == token.CONTINUE
-		}
-		return false
-	}
-	exprEvents := func(n ast.Node) []string {
-		if n == nil {
-			return nil
-		}
-		return redisEvents(&ast.BlockStmt{List: []ast.Stmt{&ast.ExprStmt{X: &ast.CallExpr{Fun: &ast.FuncLit{Type: &ast.FuncType{}, Body: &ast.BlockStmt{List: []ast.Stmt{wrapNode(n)}}}}}}}, local, 0)
-	}
-	for _, st := range list {
-		switch x := st.(type) {
-		case *ast.IfStmt:
-			if x.Init != nil {
-				out = append(out, exprEvents(x.Init)...)
-			}
-			out = append(out, exprEvents(x.Cond)...)
-			body := redisEventsStructured(x.Body.List, local)
-			if terminates(x.Body) {
-				out = append(out, "(")
-				out = append(out, body...)
-				out = append(out, ")")
-			} else {
-				out = append(out, body...)
-			}
-			switch e := x.Else.(type) {
-			case *ast.BlockStmt:
-				eb := redisEventsStructured(e.List, local)
-				if terminates(e) {
-					out = append(out, "(")
-					out = append(out, eb...)
-					out = append(out, ")")
-				} else {
-					out = append(out, eb...)
-				}
-			case *ast.IfStmt:
-				out = append(out, redisEventsStructured([]ast.Stmt{e}, local)...)
-			}
-		case *ast.ForStmt:
-			out = append(out, redisEventsStructured(x.Body.List, local)...)
-		case *ast.RangeStmt:
-			out = append(out, redisEventsStructured(x.Body.List, local)...)
-		case *ast.BlockStmt:
-			out = append(out, redisEventsStructured(x.List, local)...)
-		default:
-			out = append(out, exprEvents(st)...)
-		}
-	}
-	return out
-}
-
-// wrapNode makes a statement out of a statement or an expression (for redisEvents, which inspects a block)
-func wrapNode(n ast.Node) ast.Stmt {
-	switch x := n.(type) {
-	case ast.Stmt:
-		return x
-	case ast.Expr:
-		return &ast.ExprStmt{X: x}
-	}
-	return &ast.EmptyStmt{}
 }
 
 var redisReadCmds = map[string]bool{"HKEYS": true, "HGETALL": true, "HLEN": true, "HGET": true, "GET": true, "EXISTS": true}
